@@ -55,6 +55,7 @@ def shards(tier):
         [{"seq": "triples", "slice": [i, 4]} for i in range(4)]
     out.append({"linked": True})
     out.append({"nodep": True})
+    out.append({"rewritten": True})
     if tier != "quick":
         out += [{"seq": "triples-full", "slice": [i, 16]} for i in range(16)]
     return out
@@ -181,7 +182,67 @@ def _run_nodep(case, ctx):
     ctx.extra["nodep." + res["refused"]] += 1
 
 
+def _run_rewritten(case, ctx):
+    """An HDD object built on a benign descriptor; the descriptor file is then replaced by a hostile one (other size and
+    time stamp); open() on the existing object either keeps using what it parsed or refuses -- it never expands."""
+    from dissect.hypervisor.disk.hdd import HDD
+
+    from mc.builders import hdd as B
+
+    ctx.executions += 1
+    ctx.model(case)
+    ctx.sample(case)
+    ctx.nontrivial += 1
+    ctx.transitions += 1
+    ctx.states += 1
+    with scratch_dir() as d:
+        hd = os.path.join(d, "x.hdd")
+        os.makedirs(hd)
+        canary = os.path.join(d, "canary-secret")
+        for p_ in (canary, canary + ".dtd"):
+            with open(p_, "w") as f:
+                f.write('<!ENTITY g "leaked">' if p_.endswith(".dtd") else "TOP-SECRET")
+        benign, _ = _document("hdd", "plain", 1, "text", canary)
+        hostile, _ = _document("hdd", case["family"], 3, "text", canary)
+        dp = os.path.join(hd, "DiskDescriptor.xml")
+        with open(dp, "w") as f:
+            f.write(benign)
+        os.utime(dp, ns=(1_600_000_000_000_000_000, 1_600_000_000_000_000_000))
+        B.build_hds(["D"], [1], 8, 2, 8).write_to(os.path.join(hd, "x.hds"))
+        with ctx.watch(case, 60):
+            h = HDD(Path(hd))
+            def snap():
+                from xml.etree.ElementTree import tostring
+
+                return tostring(h.descriptor.xml)
+
+            before = snap()
+            with open(dp, "w") as f:
+                f.write(hostile)
+            raised = None
+            try:
+                st = h.open()
+                for _, x in getattr(st, "streams", []):
+                    try:
+                        getattr(x, "fh", x).close()
+                    except Exception:
+                        pass
+            except Exception as e:
+                raised = e
+            after = snap()
+        # the object either keeps what it parsed, or refuses; a changed tree means the declaring document was parsed and accepted
+        if after != before:
+            ctx.violation(case, {"subject": "xml.hdd-rewritten", "kind": "declaring-document-accepted-after-rewrite",
+                                 "family": case["family"]}, {"raised": repr(raised)[:200], "after": after[:300].decode("utf-8", "replace")})
+            return
+    ctx.outcome("refused")
+
+
 def run_shard(shard, ctx):
+    if shard.get("rewritten"):
+        for fam in ("internal", "laughs", "external-file", "param-internal"):
+            run_case({"rewritten": True, "family": fam}, ctx)
+        return
     if shard.get("nodep"):
         for e in ENTRY:
             for fam in ("internal", "laughs", "external-file"):
@@ -476,6 +537,8 @@ def _run_sequence(case, ctx):
 
 
 def run_case(case, ctx):
+    if case.get("rewritten"):
+        return _run_rewritten(case, ctx)
     if case.get("nodep"):
         return _run_nodep(case, ctx)
     if "sequence" in case:
